@@ -103,6 +103,7 @@ def step (st : St) (op res : String) : St × List String :=
       | _, _, _ => (st, ["DIVERGE dom unexpected-result"])
     | none, _, _ => (st, ["br:skipped.no-setup"])
     | _, _, _ => (st, ["DIVERGE drift unparsed-op"])
+  | ["rage", _] => (st, ["br:range.time-passes"])      -- time is read off the timestamps of the lines that follow
   | "rrestart" :: macs =>
     match st.cfg, words res with
     | some cfg, t0 :: _ :: "ok" :: servedW =>
